@@ -17,5 +17,3 @@ func (node *Node) VerifReloadConsensusState(s *common.Snapshot, tx *common.Versi
 	return node.reloadConsensusState(s, tx)
 }
 
-// VerifStop ends the topology statistics goroutine started by SetupNode.
-func (node *Node) VerifStop() { close(node.done) }
